@@ -413,15 +413,128 @@ fn router_abandoned_send(ctx: &mut Ctx) {
     }
 }
 
+/// A routed send is blocked by back-pressure (its target does not read) when the target's peer joins
+/// a second time under the same identity; the first connection then drains and the send completes.
+/// From then on one connection is registered under the identity - the newcomer's, since the socket
+/// admitted it - and a request arriving on it is answered on it, not on the other one.
+fn rejoin_during_blocked_send(ctx: &mut Ctx) {
+    world::swarm(ctx, SwarmOpts { small_caps: false, ..Default::default() });
+    let big_len = ctx.plan_pick(&[3_000usize, 20_000, 70_000, 200_000]);
+    let cap = ctx.plan_pick(&[256usize, 1_000, 9_000]);
+    let wait_yields = ctx.plan(6) as u32;
+    let old_leaves = ctx.plan_bool();
+    let viol: Rc<RefCell<Vec<(&'static str, String)>>> = Rc::new(RefCell::new(Vec::new()));
+    let done = Rc::new(RefCell::new(false));
+    let (vl, dn) = (viol.clone(), done.clone());
+    rt::task::spawn_local("app", async move {
+        let mut router = RouterSocket::new();
+        let ep = router.bind("tcp://127.0.0.1:0").await.expect("bind").to_string();
+        let mut x1 = RawPeer::connect(&ep).expect("connect");
+        let _ = x1.hello("DEALER", Some(b"xavier")).await;
+        let _ = x1.send_msg(&tagged(1, 0, &[3])).await;
+        rt::task::idle().await;
+        let _ = rt::future::or_idle(router.recv()).await;
+        // the first connection stops reading; beside the blocked send, the peer joins again
+        x1.conn.set_auto_drain(1, false);
+        x1.conn.set_cap(1, cap);
+        let c1 = x1.conn.clone();
+        let (c1b, side1) = (x1.conn.clone(), x1.side);
+        let old_msgs = move || rc::parse_stream(&c1b.tap_from(1 - side1)).messages().len();
+        let ep2 = ep.clone();
+        let joiner = rt::task::spawn_local("joiner", async move {
+            for _ in 0..wait_yields {
+                rt::task::yield_now().await;
+            }
+            let mut x2 = RawPeer::connect(&ep2).expect("connect");
+            let _ = x2.hello("DEALER", Some(b"xavier")).await;
+            // the world settles with the send still blocked (and the handshake as far as it gets)
+            rt::task::idle().await;
+            rt::count("probe_peer_rejoined_while_a_send_to_it_was_blocked");
+            c1.set_cap(1, 1 << 40);
+            c1.set_auto_drain(1, true);
+            x2
+        });
+        let big = tagged(7, 0, &[big_len]);
+        let mut m = vec![b"xavier".to_vec()];
+        m.extend(big.iter().cloned());
+        let _ = router.send(to_zmq(&m)).await;
+        let Ok(mut x2) = joiner.await else {
+            return world::park().await;
+        };
+        rt::task::idle().await;
+        let mut x1 = Some(x1);
+        if old_leaves {
+            x1.take().unwrap().close();
+            rt::task::idle().await;
+        }
+        // a request on the new connection, answered to its label
+        let _ = x2.send_msg(&tagged(2, 0, &[4])).await;
+        let mut label = None;
+        for _ in 0..6 {
+            match rt::future::or_idle(router.recv()).await {
+                Some(Ok(msg)) => {
+                    let f = from_zmq(&msg);
+                    if world::tag_of(&f) == Some((2, 0)) {
+                        label = f.first().cloned();
+                        break;
+                    }
+                }
+                Some(Err(_)) => {}
+                None => break,
+            }
+        }
+        let Some(label) = label else {
+            vl.borrow_mut().push(("rejoined_peer_not_heard", format!("ROUTER: a peer joined again under its identity while a send of {big_len} bytes to it was blocked; a request on its new connection was never delivered")));
+            *dn.borrow_mut() = true;
+            return world::park().await;
+        };
+        if label != b"xavier" {
+            vl.borrow_mut().push(("label_not_announced_identity", format!("the request on the new connection is labelled {}", hex(&label))));
+        }
+        let (b1, b2) = (old_msgs(), x2.inbound().messages().len());
+        let reply = tagged(3, 0, &[5]);
+        let mut m2 = vec![label.clone()];
+        m2.extend(reply.iter().cloned());
+        let r = router.send(to_zmq(&m2)).await;
+        rt::task::idle().await;
+        let (a1, a2) = (old_msgs(), x2.inbound().messages().len());
+        if a2 != b2 + 1 || a1 != b1 || x2.inbound().messages().last() != Some(&reply) {
+            vl.borrow_mut().push(("reply_not_on_the_connection_that_asked", format!("ROUTER: a peer joined again under its identity while a send of {big_len} bytes to it was blocked ({}); a request then arrived on the new connection, labelled with that identity; the reply addressed to the label (send result {:?}) put {} message(s) on the new connection and {} on the old one", if old_leaves { "the old connection was closed afterwards" } else { "both connections stay open" }, r.as_ref().map_err(|e| e.to_string()), a2 - b2, a1 - b1)));
+        }
+        *dn.borrow_mut() = true;
+        world::park().await;
+        drop(router);
+        drop(x2);
+        drop(x1);
+    });
+    let end = ctx.sim.run(400_000);
+    if end == rt::RunEnd::Budget {
+        ctx.violation("no_quiescence", "ROUTER rejoin during a blocked send: no quiescence".into());
+    }
+    ctx.check_panics();
+    for (c, d) in viol.borrow().clone() {
+        ctx.violation(c, d);
+    }
+    if *done.borrow() {
+        ctx.nontrivial();
+    } else if end == rt::RunEnd::Quiescent && ctx.sim.rt.panics.borrow().is_empty() && viol.borrow().is_empty() {
+        ctx.violation("stuck", "ROUTER rejoin during a blocked send: the scenario never completed".into());
+    }
+    if ctx.want_sample {
+        ctx.out.sample = Some(format!("ROUTER: send of {big_len} bytes to a peer that accepts {cap}; the peer joins again under its identity meanwhile"));
+    }
+}
+
 pub fn def() -> PropDef {
     PropDef {
         id: "C09",
         level: "exploration",
-        rule: "one case = ROUTER socket with 1..4 scripted peers (DEALER/REQ/ROUTER; identity none, empty, or announced: 1, 16 or 255 bytes, leading zero byte, all zeros, embedded zeros, 0xff bytes, one a prefix of another), each sending 1..4 tagged messages at drawn times, some departing after the handshake; then 1..8 routed sends to targets drawn from {each peer, departed peer, unknown identity (empty, 1, 17, 256 bytes, near misses of a connected peer's identity: one byte longer / shorter / last byte changed)}; taps snapshotted around every send; transport and schedule drawn per case; rejoin_routable: the ROUTER departure/rejoin histories of C16 judged for label and routability of the rejoined peer, right after the rejoin and again after further recv calls; non-trivial = more than one peer and at least one routed send judged; distinct = distinct (plan, schedule, transport) hashes",
+        rule: "one case = ROUTER socket with 1..4 scripted peers (DEALER/REQ/ROUTER; identity none, empty, or announced: 1, 16 or 255 bytes, leading zero byte, all zeros, embedded zeros, 0xff bytes, one a prefix of another), each sending 1..4 tagged messages at drawn times, some departing after the handshake; then 1..8 routed sends to targets drawn from {each peer, departed peer, unknown identity (empty, 1, 17, 256 bytes, near misses of a connected peer's identity: one byte longer / shorter / last byte changed)}; taps snapshotted around every send; transport and schedule drawn per case; rejoin_during_blocked_send: a routed send of 3..200 kB is blocked by a target that accepts 256..9000 bytes, the target's peer joins again under the same identity meanwhile, the first connection drains (and is closed or stays open); a request on the new connection must then be labelled with the identity and its reply written to the new connection only; rejoin_routable: the ROUTER departure/rejoin histories of C16 judged for label and routability of the rejoined peer, right after the rejoin and again after further recv calls; non-trivial = more than one peer and at least one routed send judged; distinct = distinct (plan, schedule, transport) hashes",
         assumptions: &["announced identities are unique (the generator never duplicates them)", "single-frame sends are outside the statement (the socket asserts on them)", "a departed peer is used as a target only once its connection is closed"],
         strata: vec![
             Stratum { name: "router_world", quick: 120_000, thorough: (2_000_000) * 5, exhaustive: (false, false), run: router_world, what: "labelling of inbound messages and routing of outbound ones, checked on connection taps" },
             Stratum { name: "router_abandoned_send", quick: 20_000, thorough: 1_000_000, exhaustive: (false, false), run: router_abandoned_send, what: "a routed send abandoned under back-pressure: the peer stays labelled and routable, its stream stays whole, nobody else gets the bytes" },
+            Stratum { name: "rejoin_during_blocked_send", quick: 12_000, thorough: 600_000, exhaustive: (false, false), run: rejoin_during_blocked_send, what: "a peer joins again under its identity while a routed send to its first connection is blocked by back-pressure; afterwards a request on the new connection is answered on the new connection" },
             Stratum { name: "rejoin_routable", quick: 9_600, thorough: 800_000, exhaustive: (false, false), run: super::c16::rejoin_routable, what: "a peer that comes back under its announced identity (16 departure/rejoin histories) stays labelled with it and routable, also after further recv calls" },
         ],
     }
